@@ -3,6 +3,8 @@
 package main
 
 import (
+	"io"
+	"strings"
 	"bytes"
 	"errors"
 	"fmt"
@@ -24,6 +26,8 @@ const (
 	finalQuiet   = 30 * time.Millisecond
 	giveUpQuiet  = 1500 * time.Millisecond // sentinel not seen and the output unchanged for this long: stop waiting
 	nodeName     = "verif-node"
+	stormMax     = 40000           // burst lines per scenario at most
+	stormBound   = 3 * time.Second // ... and no longer than this
 )
 
 func repoDir() string {
@@ -50,6 +54,7 @@ type runResult struct {
 	Output     []byte
 	HarnessKey string // non-empty: the run is not usable (or the daemon misbehaved outside the oracles' scope)
 	HarnessErr string
+	Storm      int    // lines of the sshd burst written (large-event scenarios)
 	Sync       string // how completeness of the output was established: sentinel | quiescence | bound
 	Millis     int64
 }
@@ -207,7 +212,50 @@ func runScenario(bin, dir string, sc *scenario) (res runResult) {
 		errs := make(chan error, 2)
 		gap := time.Duration(p.GapUs) * time.Microsecond
 		sc1, sc2 := chunks(p.Sshd, p.SshdCuts), chunks(p.Audit, p.AuditCuts)
-		go func() { errs <- writeAll(sshdW, sc1, gap) }()
+		if sc.Big && sc.StormBatch > 0 {
+			// the burst: failure lines after every write of the scenario's own text, then for as long as the large
+			// events are still being written (the sshd pipeline then writes all through the audit pipeline's work)
+			want := sc.mandatoryActions()
+			tc := &tailCounter{path: outPath, mark: []byte(`"type":"UserAction"`)}
+			go func() {
+				batch := func() error {
+					var sb strings.Builder
+					for k := 0; k < sc.StormBatch; k++ {
+						sb.WriteString(stormItem(res.Storm + k).text())
+					}
+					_, err := sshdW.WriteString(sb.String())
+					if err == nil {
+						res.Storm += sc.StormBatch
+					}
+					return err
+				}
+				for _, c := range sc1 {
+					if _, err := sshdW.WriteString(c); err != nil {
+						errs <- err
+						return
+					}
+					if !strings.HasSuffix(c, "\n") {
+						continue // mid-record: the burst lines go between records
+					}
+					if err := batch(); err != nil {
+						errs <- err
+						return
+					}
+				}
+				for deadline := time.Now().Add(stormBound); res.Storm < stormMax && time.Now().Before(deadline); {
+					if tc.poll() >= want {
+						break
+					}
+					if err := batch(); err != nil {
+						errs <- err
+						return
+					}
+				}
+				errs <- nil
+			}()
+		} else {
+			go func() { errs <- writeAll(sshdW, sc1, gap) }()
+		}
 		go func() { errs <- writeAll(auditW, sc2, gap) }()
 		timeout := time.After(feedBound)
 		var werr error
@@ -306,4 +354,37 @@ func runScenario(bin, dir string, sc *scenario) (res runResult) {
 	}
 	res.Output = readOut()
 	return res
+}
+
+// tailCounter counts the occurrences of mark in a growing file, reading only what was added since the last poll.
+type tailCounter struct {
+	path  string
+	mark  []byte
+	off   int64
+	carry []byte
+	n     int
+}
+
+func (t *tailCounter) poll() int {
+	f, err := os.Open(t.path)
+	if err != nil {
+		return t.n
+	}
+	defer f.Close()
+	if _, err := f.Seek(t.off, 0); err != nil {
+		return t.n
+	}
+	b, _ := io.ReadAll(f)
+	if len(b) == 0 {
+		return t.n
+	}
+	t.off += int64(len(b))
+	data := append(t.carry, b...)
+	t.n += bytes.Count(data, t.mark)
+	keep := len(t.mark) - 1
+	if keep > len(data) {
+		keep = len(data)
+	}
+	t.carry = append([]byte(nil), data[len(data)-keep:]...)
+	return t.n
 }
